@@ -50,6 +50,18 @@ def block_cases(types, vers, seeds, maxc=None):
     return cases
 
 
+def float_boundary_cases(nseeds=12):
+    """instances whose single floats come from the boundary palette (FLT_MAX, neighbours, infinities, NaN, -0, denormal):
+    for the block types whose Sync compares a float member (the only one at the pinned commit: BSLightingShaderProperty,
+    FO4 streams, Shaders.cpp:481)"""
+    cases = []
+    for n in ("BSLightingShaderProperty",):
+        for vn in ("FO4", "FO4_132", "FO4_139"):
+            for s in range(1, nseeds + 1):
+                cases.append(("blk type=%s ver=%s seed=%d fspecial=1" % (n, VERS[vn], s), n, vn, s))
+    return cases
+
+
 def refines(fine, coarse):
     """the model may sync a struct member-wise where the C++ copies the struct in one transfer:
     every C++ transfer must be a concatenation of consecutive model transfers"""
